@@ -324,7 +324,7 @@ type plainWriter struct {
 func (p *plainWriter) Header() http.Header { return p.hdr }
 func (p *plainWriter) WriteHeader(c int)   { p.calls = append(p.calls, call{Op: "wh", C: c}) }
 func (p *plainWriter) Write(b []byte) (int, error) {
-	p.calls = append(p.calls, call{Op: "w"})
+	p.calls = append(p.calls, call{Op: "w", Data: string(b)})
 	return len(b), nil
 }
 
@@ -337,6 +337,18 @@ type richWriter struct {
 }
 
 func (r *richWriter) Flush() { r.calls = append(r.calls, call{Op: "fl"}) }
+
+// richWriter is also an io.ReaderFrom and an io.StringWriter, like net/http's own writer.
+func (r *richWriter) ReadFrom(src io.Reader) (int64, error) {
+	b, err := io.ReadAll(src)
+	r.calls = append(r.calls, call{Op: "rf", Data: string(b)})
+	return int64(len(b)), err
+}
+
+func (r *richWriter) WriteString(s string) (int, error) {
+	r.calls = append(r.calls, call{Op: "ws", Data: s})
+	return len(s), nil
+}
 func (r *richWriter) Hijack() (net.Conn, *bufio.ReadWriter, error) {
 	r.calls = append(r.calls, call{Op: "hj", C: r.mode})
 	if r.mode != 1 {
@@ -414,6 +426,7 @@ func replayCodeRec(args []string) error {
 				return rich3.calls
 			}
 			rets := []string{}
+			base := 0 // index of the underlying writer the wrapper currently points at
 			var w *httputil.CodeRecorderResponseWriter
 			var code int
 			var unwrapped http.ResponseWriter
@@ -434,10 +447,16 @@ func replayCodeRec(args []string) error {
 						if m, err := w.Write([]byte("xy")); m != 2 || err != nil {
 							panic(fmt.Sprintf("harness: Write returned (%d, %v)", m, err))
 						}
+						for _, u := range []*[]call{&rich.calls, &plain.calls, &rich3.calls} {
+							if k := len(*u); k > 0 && (*u)[k-1].Op == "w" {
+								(*u)[k-1].Data = "" // plain writes are compared as calls
+							}
+						}
 					case "impl":
 						w.SetImplicitSuccess()
 					case "reset":
 						w.Reset(under[o.C-1])
+						base = o.C - 1
 					case "hj":
 						rich.mode, rich3.mode = o.C, o.C
 						var conn net.Conn
@@ -458,6 +477,31 @@ func replayCodeRec(args []string) error {
 							rets = append(rets, "fail")
 						default:
 							rets = append(rets, "error: "+err.Error())
+						}
+					case "cp":
+						// a std-lib helper writes a byte string through the wrapper
+						data, intended := streamData(n, len(rets), o.C)
+						idx := base
+						var target *[]call
+						switch idx {
+						case 0:
+							target = &rich.calls
+						case 1:
+							target = &plain.calls
+						default:
+							target = &rich3.calls
+						}
+						before := len(*target)
+						got, err := helperWrite(w, nil, o.C, data, viaReset)
+						if got != int64(len(intended)) || (err != nil) != (o.C == 5) {
+							panic(fmt.Sprintf("harness: helper %d returned (%d, %v), the source has %d bytes", o.C, got, err, len(intended)))
+						}
+						*target = collapse(*target, before, o.C)
+						if last := &(*target)[len(*target)-1]; last.Op == "cp" {
+							if last.Data != intended {
+								last.C = -o.C // not those bytes
+							}
+							last.Data = ""
 						}
 					case "fl":
 						_ = http.NewResponseController(w).Flush() // ErrNotSupported on the bare writer
@@ -524,6 +568,8 @@ func crKey(ops []op) string {
 			s += fmt.Sprintf("Hijack[%s];", []string{"", "succeeds", "fails"}[o.C])
 		case "fl":
 			s += "Flush;"
+		case "cp":
+			s += opsKey([]op{o}) + ";"
 		}
 	}
 	return s + "Code()"
